@@ -49,10 +49,19 @@ from .values import (
 )
 
 MAX_UNROLL = 400
+_KEEP_GOING = bool(__import__("os").environ.get("PYVC_KEEP_GOING"))
 MAX_DEPTH = 60
 
 
 _FRAME_IDS = __import__("itertools").count(1)
+
+
+class _NameErr(Exception):
+    """raised by Interp.lookup for an unbound local / free variable; ev_Name turns it into the Python exception"""
+
+    def __init__(self, cls, msg):
+        Exception.__init__(self, msg)
+        self.cls = cls
 
 
 class Frame:
@@ -470,10 +479,11 @@ class Interp:
         materialises it from its initial value, later accesses see the same object (so `byName[k] = x` in one
         function is visible to the next reader), forks copy it with the store.  Keyed by the identity of the frozen
         initial value, which the globals cache keeps alive."""
-        if isinstance(v, (FrozenList, FrozenDict, FrozenNd, FrozenObj, frozenset)):
+        if isinstance(v, (FrozenList, FrozenDict, FrozenNd, FrozenObj, frozenset)) or (
+                type(v) is tuple and any(isinstance(x, (FrozenObj, FrozenList, FrozenDict, FrozenNd, frozenset, tuple)) for x in v)):
             k = ("modglobal", id(v))
             r = st.ghost.get(k)
-            if r is None or r.id not in st.store:
+            if r is None or (isinstance(r, Ref) and r.id not in st.store):
                 r = self.thaw(v, st)
                 st.ghost[k] = r
                 self._global_keep.append(v)
@@ -484,6 +494,10 @@ class Interp:
         fr = st.frame
         if name in fr.vars:
             return fr.vars[name]
+        if fr.func is not None and name in self.local_names(fr.func):
+            # CPython: a name bound anywhere in a function body is local in the WHOLE body; reading it while unbound is
+            # UnboundLocalError - it never falls through to an enclosing / global / builtin name
+            raise _NameErr("UnboundLocalError", "cannot access local variable '%s' where it is not associated with a value" % name)
         if fr.func is not None and fr.func.closure is not None:
             found, v = self.closure_lookup(fr.func, name, st)
             if found:
@@ -547,9 +561,34 @@ class Interp:
         if name in env:
             return True, env[name]
         parent = getattr(func, "def_func", None)
+        if parent is not None and name in self.local_names(parent):
+            # a variable of the enclosing function that is not bound (yet / any more): NameError, never an outer / global name
+            raise _NameErr("NameError", "cannot access free variable '%s' where it is not associated with a value in enclosing scope" % name)
         if parent is not None and parent.closure is not None:
             return self.closure_lookup(parent, name, st)
         return False, None
+
+    def nonlocal_set(self, st, func, name, v):
+        """`nonlocal name; name = v` in `func`: rebinds the variable of the nearest enclosing function activation that owns
+        the name - the live frame while that activation is on the stack, else what it left behind (pop_frame).  The
+        environment kept in st.ghost is shared by forked states: it is replaced, not updated in place."""
+        f = func
+        while f is not None:
+            fid = getattr(f, "def_fid", None)
+            parent = getattr(f, "def_func", None)
+            env = self.env_of(st, fid) if fid is not None else None
+            if env is None:
+                break
+            if name in env or (parent is not None and name in self.local_names(parent)):
+                if any(fr.fid == fid for fr in st.frames):
+                    env[name] = v
+                else:
+                    env = dict(env)
+                    env[name] = v
+                    st.ghost[("env", fid)] = env
+                return
+            f = parent
+        raise Unsupported("nonlocal %s: the variable of the enclosing function is not available" % name)
 
     def _bound_once(self, fnode, name):
         """`name` has at most one binding in the function `fnode` (nested functions excluded), not inside a loop, no
@@ -728,13 +767,33 @@ class Interp:
         k = ("mro", id(getattr(cls, "node", None)) if isinstance(cls, ClassVal) else cls.name)
         if k in self._class_cache:
             return self._class_cache[k]
+        if isinstance(cls, ClassVal):
+            for d in cls.node.decorator_list:
+                nm = d.func if isinstance(d, ast.Call) else d
+                nm = nm.attr if isinstance(nm, ast.Attribute) else getattr(nm, "id", None)
+                if nm not in ("dataclass", "unique", "total_ordering", "runtime_checkable", "final"):
+                    # CPython binds the class name to decorator(class); an ignored decorator would be a different class
+                    raise Unsupported("class decorator %s on %s" % (nm, cls.name))
+        # C3 linearisation (what type.mro() computes): merge of the bases' linearisations and the list of bases, always taking
+        # the first head that is in no tail.  (A "move repeated classes to the end" approximation differs from C3, e.g. for
+        # A(B, C), B(D, E), C(D, F): C3 gives A B C D E F, not A B E C D F.)
+        bases = list(self.bases(cls))
+        seqs = [list(self.mro(b)) for b in bases] + [bases]
         out = [cls]
-        for b in self.bases(cls):
-            for c in self.mro(b):
-                if c in out:
-                    out.remove(c)
-                out.append(c)
-        # C3-ish: a base must come after all classes deriving from it (handled by the move-to-end above)
+        while True:
+            seqs = [q for q in seqs if q]
+            if not seqs:
+                break
+            for q in seqs:
+                h = q[0]
+                if not any(h in r[1:] for r in seqs):
+                    break
+            else:
+                raise Unsupported("inconsistent method resolution order for %s (TypeError in CPython)" % cls.name)
+            out.append(h)
+            for q in seqs:
+                if q[0] == h:
+                    del q[0]
         self._class_cache[k] = out
         return out
 
@@ -749,6 +808,12 @@ class Interp:
                         if "setter" in decs:
                             m[n.name + ".setter"] = FuncVal(n, cls.module, cls)
                             continue
+                        if "deleter" in decs:
+                            # @x.deleter def x(self): the property keeps its getter (and setter) and gains a deleter
+                            m[n.name + ".deleter"] = FuncVal(n, cls.module, cls)
+                            continue
+                        if "getter" in decs:
+                            raise Unsupported("@%s.getter" % n.name)
                     m[n.name] = FuncVal(n, cls.module, cls)
                 elif isinstance(n, ast.Assign):
                     for t in n.targets:
@@ -856,8 +921,92 @@ class Interp:
             raise Unsupported("complex constant")
         yield st, v
 
+    # closures --------------------------------------------------------------------
+    def _scope_info(self, func):
+        """static facts about a function body (cached per node): (names local to the body, names mentioned in nested
+        functions / lambdas = possible cell variables, names declared nonlocal)"""
+        node = getattr(func, "node", None)
+        if node is None:
+            return frozenset(), frozenset(), frozenset()
+        c = node.__dict__.get("_pyvc_scope")
+        if c is not None:
+            return c
+        local, inner, nonl, glob = set(), set(), set(), set()
+        a = node.args
+        for x in a.posonlyargs + a.args + a.kwonlyargs + ([a.vararg] if a.vararg else []) + ([a.kwarg] if a.kwarg else []):
+            local.add(x.arg)
+
+        def targets(t):
+            if isinstance(t, ast.Name):
+                local.add(t.id)
+            elif isinstance(t, (ast.Tuple, ast.List)):
+                for e in t.elts:
+                    targets(e)
+            elif isinstance(t, ast.Starred):
+                targets(t.value)
+
+        def walk(n, incomp):
+            if isinstance(n, (ast.FunctionDef, ast.AsyncFunctionDef, ast.ClassDef)):
+                local.add(n.name)
+                for d in n.decorator_list:
+                    walk(d, incomp)
+                if not isinstance(n, ast.ClassDef):
+                    for d in n.args.defaults + [k for k in n.args.kw_defaults if k is not None]:
+                        walk(d, incomp)
+                for sub in ast.walk(n):
+                    if isinstance(sub, ast.Name):
+                        inner.add(sub.id)
+                    elif isinstance(sub, ast.Nonlocal):
+                        inner.update(sub.names)
+                return
+            if isinstance(n, ast.Lambda):
+                for d in n.args.defaults + [k for k in n.args.kw_defaults if k is not None]:
+                    walk(d, incomp)
+                for sub in ast.walk(n):
+                    if isinstance(sub, ast.Name):
+                        inner.add(sub.id)
+                return
+            if isinstance(n, ast.Global):
+                glob.update(n.names)
+            elif isinstance(n, ast.Nonlocal):
+                nonl.update(n.names)
+            elif isinstance(n, ast.Name) and isinstance(n.ctx, (ast.Store, ast.Del)) and not incomp:
+                local.add(n.id)
+            elif isinstance(n, ast.NamedExpr):
+                targets(n.target)  # binds in the enclosing function even inside a comprehension
+            elif isinstance(n, (ast.Import, ast.ImportFrom)):
+                for al in n.names:
+                    local.add(al.asname or al.name.split(".")[0])
+            elif isinstance(n, ast.ExceptHandler) and n.name:
+                local.add(n.name)
+            elif isinstance(n, (ast.MatchAs, ast.MatchStar)) and n.name:
+                local.add(n.name)
+            elif isinstance(n, ast.MatchMapping) and n.rest:
+                local.add(n.rest)
+            if isinstance(n, (ast.ListComp, ast.SetComp, ast.DictComp, ast.GeneratorExp)):
+                # a comprehension is a scope of its own: its targets are not locals of the function
+                for sub in ast.iter_child_nodes(n):
+                    walk(sub, True)
+                return
+            for sub in ast.iter_child_nodes(n):
+                walk(sub, incomp)
+
+        body = node.body if isinstance(node.body, list) else [node.body]
+        for stmt in body:
+            walk(stmt, False)
+        local -= glob
+        local -= nonl
+        c = node._pyvc_scope = (frozenset(local), frozenset(inner), frozenset(nonl))
+        return c
+
+    def local_names(self, func):
+        return self._scope_info(func)[0]
+
     def ev_Name(self, node, st):
-        yield st, self.lookup(node.id, st)
+        try:
+            yield st, self.lookup(node.id, st)
+        except _NameErr as e:
+            yield st, Exc(ExcVal(BuiltinClass(e.cls, getattr(_pybuiltins, e.cls)), (str(e),)))
 
     def ev_Tuple(self, node, st):
         if any(isinstance(e, ast.Starred) for e in node.elts):
@@ -897,7 +1046,7 @@ class Interp:
             else:
                 items = []
                 for v in vs:
-                    self.hashable(v)
+                    self.set_elem(st1, v, items)
                     if v not in items:
                         items.append(v)
                 yield st1, st1.alloc(SetE(items))
@@ -962,14 +1111,14 @@ class Interp:
         if any(k is None for k in node.keys):
             yield from self._ev_dict_unpacking(node, st)
             return
-        for st1, ks in self.ev_many(node.keys, st):
-            if isinstance(ks, Exc):
-                yield st1, ks
+        # CPython evaluates a dict display entry by entry: key1, value1, key2, value2, ... (not all keys, then all values)
+        inter = [n for kv in zip(node.keys, node.values) for n in kv]
+        for st1, kvs in self.ev_many(inter, st):
+            if isinstance(kvs, Exc):
+                yield st1, kvs
                 continue
-            for st2, vs in self.ev_many(node.values, st1):
-                if isinstance(vs, Exc):
-                    yield st2, vs
-                    continue
+            ks, vs = kvs[0::2], kvs[1::2]
+            for st2 in (st1,):
                 from . import keyed
 
                 if any(not is_z3(k) and keyed.is_special(self, st2, k) for k in ks):
@@ -992,6 +1141,27 @@ class Interp:
                 for k, v in zip(ks, vs):
                     d[self.hashable(k)] = v
                 yield st2, st2.alloc(DictE(d))
+
+    def set_elem(self, st, x, items=None):
+        """element of a builtin set: CPython treats x and an element y as the same iff they are identical, or their hashes
+        are equal and x == y.  The model keeps set elements apart by identity.  For objects with a user-defined __eq__ that
+        is the same answer exactly when x is identical to an element or `==` (the objects' own __eq__, run here) says False
+        for every other element - whatever the hashes are.  `items`: the elements x is looked up among; anything else
+        (an equal but distinct element: the hashes would decide; a forking / raising __eq__) is refused."""
+        from . import keyed
+
+        if keyed._has_user_eq(self, st, x) or (items is not None and any(keyed._has_user_eq(self, st, y) for y in items)):
+            if items is None or isinstance(x, tuple) or any(isinstance(y, tuple) for y in items):
+                raise Unsupported("object with a user-defined __eq__ as element of a set")
+            for y in items:
+                if isinstance(x, Ref) and isinstance(y, Ref) and x.id == y.id:
+                    continue
+                outs = list(self.models.compare(self, st, "Eq", x, y))
+                if len(outs) == 1 and outs[0][0] is st and is_z3(outs[0][1]) and z3.is_bool(outs[0][1]) and not self.feasible(st, outs[0][1]):
+                    continue  # unequal on every input of this path
+                if len(outs) != 1 or outs[0][0] is not st or outs[0][1] is not False:
+                    raise Unsupported("set lookup among objects with a user-defined __eq__ that are (possibly) equal but not identical")
+        return self.hashable(x)
 
     def hashable(self, k):
         if is_z3(k) or isinstance(k, Ref):
@@ -1083,6 +1253,8 @@ class Interp:
         yield st, self._new_closure(fv, st)
 
     def closure_of(self, st):
+        """snapshot of the enclosing variables at definition time: only the fallback of closure_lookup (which reads the
+        live variables of the defining activation) and the namespace in which default expressions are evaluated"""
         c = {}
         f = st.frame
         if f.func is not None and f.func.closure:
@@ -1228,7 +1400,7 @@ class Interp:
             for o in outs:
                 yield o
 
-    def _same_store(self, a, b):
+    def _same_store(self, a, b, taken=None):
         if a.store.keys() != b.store.keys():
             # allocations are fine as long as old entries are unchanged
             pass
@@ -1240,6 +1412,9 @@ class Interp:
                 return False
             if e.__class__ is DictViewE:
                 continue  # derived data: recomputed from its dictionary at every access (St.get)
+            if taken is not None and e.__class__ is IterE and not e.consumed and f.consumed and not f.items:
+                taken.append(f)  # an iterator object that was run to its end in between (see _unchanged)
+                continue
             if e.kind in ("list", "deque", "set", "numset"):
                 if len(e.items) != len(f.items) or any(x is not y for x, y in zip(e.items, f.items)):
                     return False
@@ -1465,7 +1640,8 @@ class Interp:
                     from .loops import lazy_check, _same_items
 
                     lazy_check(st2, watch)
-                    if isinstance(it, Ref) and st2.get(it).kind in ("list", "dict", "set") and not _same_items(list(st2.get(it).items), items):
+                    if isinstance(it, Ref) and st2.get(it).kind in ("list", "dict", "set") and st2.get(it).__class__ is not IterE and not _same_items(
+                            list(st2.get(it).items), items):  # (an iterator object is emptied by being consumed)
                         # (a dictionary / set that changes size: RuntimeError in CPython; a view whose values change: read live)
                         raise Unsupported("a list / dictionary / set is changed by the comprehension that iterates it")
                 if k == len(items):
@@ -1529,7 +1705,7 @@ class Interp:
         # a comprehension has its own scope: its loop variables neither survive it nor overwrite a variable of the same
         # name in the enclosing function (saved: name -> value before the comprehension)
         for k in list(st.frame.vars):
-            if k not in saved:
+            if k not in saved and k not in saved.walrus:
                 del st.frame.vars[k]
         for k in getattr(saved, "targets", ()):
             if k in saved:
@@ -1553,6 +1729,8 @@ class Interp:
                 if isinstance(n, ast.Name):
                     names.add(n.id)
         saved.targets = names
+        # `(w := e)` inside a comprehension binds w in the ENCLOSING function: such names survive the comprehension
+        saved.walrus = {n.target.id for n in ast.walk(node) if isinstance(n, ast.NamedExpr) and isinstance(n.target, ast.Name)}
         saved.outer_comp = st.ghost.get("__comp_names__")
         st.ghost["__comp_names__"] = frozenset(names) | (saved.outer_comp or frozenset())  # see closure_lookup
         return saved
@@ -1626,8 +1804,12 @@ class Interp:
 
     def _unchanged(self, before, after):
         """nothing that existed in `before` differs in `after`: store entries, abstract heap, module globals rebound on the
-        path, variables of every frame (new store entries and new variables of the top frame are allowed)"""
-        if not self._same_store(before, after):
+        path, variables of every frame (new store entries and new variables of the top frame are allowed).  An iterator
+        object that the code in between ran to its end (`map(f, it)`, `(g(x) for x in it)`: the eager evaluation takes the items
+        of `it` now, CPython when the new iterator is consumed) is not a change, but that iterator is marked `taken`: using it
+        again directly (next(it)) is refused."""
+        taken = []
+        if not self._same_store(before, after, taken):
             return False
         for k, v in after.ghost.items():
             if isinstance(k, tuple) and k and k[0] == "modglobal" and before.ghost.get(k, self) is not v:
@@ -1643,6 +1825,8 @@ class Interp:
         for fa, fb in zip(before.frames, after.frames):
             if any(k in fb.vars and fb.vars[k] is not v for k, v in fa.vars.items()):
                 return False
+        for f in taken:
+            f.taken = True
         return True
 
     def ev_SetComp(self, node, st):
@@ -1652,7 +1836,7 @@ class Interp:
                 continue
             items = []
             for v in st1.get(r).items:
-                self.hashable(v)
+                self.set_elem(st1, v, items)
                 if v not in items:
                     items.append(v)
             yield st1, st1.alloc(SetE(items))
@@ -1754,7 +1938,12 @@ class Interp:
                     # expressions (ev_GeneratorExp): computing them must be effect-free and must not raise, unless the
                     # iterator is the direct argument of a call that consumes it completely at once.
                     before = None if getattr(node, "_pyvc_consumer", None) == "full" else st3.fork()
+                    g = f.func if isinstance(f, BoundMethod) else f
+                    if isinstance(g, FuncVal):
+                        # a generator function: its effects are checked here, not again in loops.call_generator
+                        st3.ghost["__iter_guard__"] = id(self.stubs.get(g.qualname(), g).node)
                     for st4, r in self.call(f, args, kwargs, st3, node):
+                        st4.ghost.pop("__iter_guard__", None)
                         if before is not None and isinstance(r, Exc) and self._unchanged(before, st4):
                             # computing the items raises and changes nothing: CPython creates the iterator without running
                             # anything and raises when it is consumed (`items = self.iterChildren(..); return list(items)`):
@@ -1880,6 +2069,9 @@ class Interp:
                 yield from _mc.call_meta(self, st, cls, args, kwargs)  # Meta(name, bases, attrs): a new class
                 return
             _mc.ensure(self, st, cls)
+        from .attrs import ensure_init_subclass
+
+        ensure_init_subclass(self, st, cls)
         if self.is_exception_class(cls):
             yield st, ExcVal(cls, args)
             return
@@ -1891,6 +2083,21 @@ class Interp:
             # class deriving from the builtin tuple (e.g. component._DimensionLink): tuple payload + methods
             items = tuple(self.iterate(args[0], st)) if args else ()
             yield st, st.alloc(ObjE(cls, {"__tuple__": items}))
+            return
+        nw, nw_where = self.class_lookup(cls, "__new__")
+        if isinstance(nw, FuncVal):
+            # a user-defined __new__ makes the instance: Cls(*a) = Cls.__new__(Cls, *a), then __init__(*a) on the result if it
+            # is an instance of Cls.  (Ignoring it would drop whatever __new__ sets up or returns.)
+            if self.dataclass_fields(cls) is not None or any(isinstance(c, BuiltinClass) and c.name != "object" for c in self.mro(cls)):
+                raise Unsupported("__new__ on a dataclass / a class with a builtin base")
+            init, _ = self.class_lookup(cls, "__init__")
+            for st1, o in self.call(nw, [cls] + list(args), kwargs, st):
+                if isinstance(o, Exc) or init is None or not (
+                        isinstance(o, Ref) and st1.get(o).kind == "obj" and self.is_subclass(st1.get(o).cls, cls)):
+                    yield st1, o
+                    continue
+                for st2, r in self.call(init, [o] + list(args), kwargs, st1):
+                    yield st2, (r if isinstance(r, Exc) else o)
             return
         obj = st.alloc(ObjE(cls))
         if self.is_subclass(cls, BuiltinClass("list", list)):
@@ -1995,7 +2202,6 @@ class Interp:
             self.trust("stub:" + q, "callee %s used through its contract `%s` (proved separately)" % (q, self.stubs[q].name))
             yield from self.call_func(self.stubs[q], args, kwargs, st, node)
             return
-        decs = f.decorators()
         if isinstance(f.node, ast.Lambda):
             vars, err = self.bind_args(f, args, kwargs, st)
             if err is not None:
@@ -2005,6 +2211,10 @@ class Interp:
             for st1, v in list(self.ev(f.node.body, st)):
                 self.pop_frame(st1)
                 yield st1, v
+            return
+        if not getattr(f, "raw", False) and any(not self.transparent_decorator(d) for d in f.node.decorator_list):
+            # an ignored decorator would run the bare function where CPython runs decorator(function)
+            yield from self.call(self.decorated(f, st), args, kwargs, st, node)
             return
         if len(st.frames) > MAX_DEPTH:
             raise Unsupported("call depth > %d (recursion without contract?) at %s" % (MAX_DEPTH, q))
@@ -2103,11 +2313,20 @@ class Interp:
                         return True
                     outs = list(self.call(m2, [v], {}, st))
                     if len(outs) == 1 and not isinstance(outs[0][1], Exc):
-                        return self.truth(outs[0][1], st)
+                        n = outs[0][1]
+                        # CPython: __len__ must return an int >= 0 (ValueError / TypeError otherwise)
+                        if isinstance(n, bool) or not (isinstance(n, int) or (is_z3(n) and z3.is_int(n))):
+                            raise Unsupported("__len__ returning a non-int in a truth test")
+                        if (isinstance(n, int) and n < 0) or (is_z3(n) and self.feasible(st, n < 0)):
+                            raise Unsupported("__len__ possibly negative in a truth test (ValueError in CPython)")
+                        return self.truth(n, st)
                     raise Unsupported("__len__ forks in truth test")
                 outs = list(self.call(m, [v], {}, st))
                 if len(outs) == 1 and not isinstance(outs[0][1], Exc):
-                    return self.truth(outs[0][1], st)
+                    b = outs[0][1]
+                    if not (isinstance(b, bool) or (is_z3(b) and z3.is_bool(b))):
+                        raise Unsupported("__bool__ returning a non-bool (TypeError in CPython)")  # e.g. 1, None
+                    return self.truth(b, st)
                 raise Unsupported("__bool__ forks in truth test")
             if e.kind == "nd":
                 if len(e.data) == 1:
@@ -2190,11 +2409,16 @@ class Interp:
             if fr.module is None:
                 raise Unsupported("global statement without module")
             st.ghost[("modglobal", fr.module.name, name)] = v
+        elif fr.func is not None and name in self._scope_info(fr.func)[2]:
+            # `nonlocal name`: the variable of the enclosing function activation is rebound
+            self.nonlocal_set(st, fr.func, name, v)
         else:
             fr.vars[name] = v
 
     def ex_Nonlocal(self, node, st):
-        raise Unsupported("nonlocal statement")
+        if st.frame.func is None:
+            raise Unsupported("nonlocal statement outside a function")
+        yield st, None
 
     def ex_Import(self, node, st):
         for a in node.names:
@@ -2266,7 +2490,11 @@ class Interp:
         opname = type(node.op).__name__
         tgt = node.target
         if isinstance(tgt, ast.Name):
-            cur0 = self.lookup(tgt.id, st)  # CPython loads the target BEFORE it evaluates the right-hand side
+            try:
+                cur0 = self.lookup(tgt.id, st)  # CPython loads the target BEFORE it evaluates the right-hand side
+            except _NameErr as e:
+                yield st, ("raise", ExcVal(BuiltinClass(e.cls, getattr(_pybuiltins, e.cls)), (str(e),)))
+                return
             for st1, rhs in list(self.ev(node.value, st)):
                 if isinstance(rhs, Exc):
                     yield st1, ("raise", rhs.exc)
@@ -2387,7 +2615,15 @@ class Interp:
             if isinstance(t, ast.Name):
                 if t.id in self.global_decls(st1.frame.func):
                     raise Unsupported("del of a name declared global")
-                st1.frame.vars.pop(t.id, None)
+                if t.id in self._scope_info(st1.frame.func)[2]:
+                    raise Unsupported("del of a name declared nonlocal")
+                if t.id not in st1.frame.vars:
+                    # CPython: deleting an unbound name is an error, not a no-op
+                    if st1.frame.func is None:
+                        raise Unsupported("del of an unbound name outside a function")
+                    yield st1, ("raise", ExcVal(BuiltinClass("UnboundLocalError", UnboundLocalError), ("cannot access local variable '%s'" % t.id,)))
+                    return
+                del st1.frame.vars[t.id]
                 yield from do(st1, k + 1)
             elif isinstance(t, ast.Subscript):
                 for st2, vs in self.ev_many([t.value, t.slice], st1):
@@ -2459,9 +2695,10 @@ class Interp:
                 if is_z3(t):
                     st1.pc.append(t)
                     yield st1, None
-                elif t:
+                elif t or _KEEP_GOING:
                     yield st1, None
-                # concrete False: path ends here (obligation recorded)
+                # concrete False: path ends here (obligation recorded); PYVC_KEEP_GOING=1 (developer aid for the engine
+                # self-tests) continues instead so that one run lists every failing assertion of a lemma
                 continue
             for st2, b in self.branch(st1, t):
                 if b:
@@ -2524,11 +2761,16 @@ class Interp:
                     if self.exc_matches(exc, hv):
                         handled = True
                         if h.name:
-                            st1.frame.vars[h.name] = exc
+                            self.bind_name(st1, h.name, exc)
                         prev = st1.ghost.get("__current_exc__")
                         st1.ghost["__current_exc__"] = exc
                         for st2, c2 in list(self.ex_block(h.body, st1)):
                             st2.ghost["__current_exc__"] = prev
+                            if h.name:
+                                # CPython: `except E as n` ends with an implicit `del n` (however the handler is left)
+                                if h.name in self.global_decls(st2.frame.func) or h.name in self._scope_info(st2.frame.func)[2]:
+                                    raise Unsupported("exception variable declared global / nonlocal")
+                                st2.frame.vars.pop(h.name, None)
                             yield from finalize(st2, c2)
                         break
                 if not handled:
@@ -2540,10 +2782,79 @@ class Interp:
         yield from self.models.exec_with(self, st, node)
 
     def ex_FunctionDef(self, node, st):
-        fv = FuncVal(node, st.frame.module, None, closure=self.closure_of(st))
-        fv.lexcls = self.lexical_class_name(st)
-        st.frame.vars[node.name] = self._new_closure(fv, st)
-        yield st, None
+        # CPython: decorator expressions are evaluated first (top to bottom), then the defaults, then the function object is
+        # made, then the decorators are applied bottom-up and the result is bound to the name
+        decs = [d for d in node.decorator_list if not self.transparent_decorator(d)]
+        for st0, dvals in self.ev_many(decs, st):
+            if isinstance(dvals, Exc):
+                yield st0, ("raise", dvals.exc)
+                continue
+            for st1 in (st0,):
+                fv = FuncVal(node, st1.frame.module, None, closure=self.closure_of(st1))
+                fv.lexcls = self.lexical_class_name(st1)
+                fv.raw = True  # decorators are applied here, not at call time
+                self._new_closure(fv, st1)  # where it was defined; its defaults, evaluated now
+
+                def app(st2, k, val):
+                    if k < 0:
+                        self.bind_name(st2, node.name, val)
+                        yield st2, None
+                        return
+                    for st3, r in self.call(dvals[k], [val], {}, st2):
+                        if isinstance(r, Exc):
+                            yield st3, ("raise", r.exc)
+                        else:
+                            yield from app(st3, k - 1, r)
+
+                yield from app(st1, len(decs) - 1, fv)
+
+    # decorators whose result behaves, for every call, like the function they are given
+    _TRANSPARENT_DECORATORS = {
+        "staticmethod", "classmethod", "property", "setter", "getter", "deleter", "cached_property",  # interpreted by the attribute model
+        "abstractmethod", "abstractproperty",  # abc: marks only
+        "HOOKIMPL", "HOOKSPEC",  # pluggy markers: return the function with a marker attribute
+        "lemma", "overload",
+    }
+
+    def transparent_decorator(self, d):
+        if isinstance(d, ast.Call):
+            nm = d.func.attr if isinstance(d.func, ast.Attribute) else getattr(d.func, "id", None)
+            return nm in ("lemma",)
+        nm = d.attr if isinstance(d, ast.Attribute) else getattr(d, "id", None)
+        if nm == "timed":
+            self.trust("timed", "armi.utils.codeTiming.timed: the timing wrapper calls the function with the same arguments and returns its result")
+            return True
+        return nm in self._TRANSPARENT_DECORATORS
+
+    def decorated(self, f, st):
+        """A module- or class-level function with decorators the engine does not interpret itself: CPython binds the name
+        to decorator(function), so that is what a call must run.  The decorators are applied the first time the function
+        is used on a path (bottom-up, in the module's namespace) and the result is kept for the rest of the path."""
+        key = ("decorated", id(f.node))
+        d = st.ghost.get(key)
+        if d is not None:
+            return d
+        import copy as _copy
+
+        val = _copy.copy(f)
+        val.raw = True
+        for dn in reversed([d for d in f.node.decorator_list if not self.transparent_decorator(d)]):
+            st.frames.append(Frame({}, None, f.module, f.cls))
+            try:
+                outs = list(self.ev(dn, st))
+                if len(outs) != 1 or outs[0][0] is not st or isinstance(outs[0][1], Exc):
+                    raise Unsupported("decorator of %s does not evaluate to one value" % f.qualname())
+                outs = list(self.call(outs[0][1], [val], {}, st))
+                if len(outs) != 1 or outs[0][0] is not st or isinstance(outs[0][1], Exc):
+                    raise Unsupported("decorator of %s forks or raises" % f.qualname())
+                val = outs[0][1]
+            finally:
+                st.frames.pop()
+        if not isinstance(val, (FuncVal, Partial, BoundMethod)) and not (isinstance(val, Ref) and st.get(val).kind == "obj"):
+            raise Unsupported("decorator of %s returns a non-function" % f.qualname())
+        st.ghost[key] = val
+        self._global_keep.append(f.node)
+        return val
 
     def ex_For(self, node, st):
         yield from self.models.exec_for(self, st, node)
